@@ -19,8 +19,8 @@
      c_prev, c_cur   generation of the values in the previous / current data (oracles only).
      c_final   this is the last run of this peer in a history that reached quiescence.
      c_visits  for the folds this peer owns: arguments of all `visit` invocations of the host.
-     c_vanished  (last run only) values of the instance that an earlier output of this peer held and this
-               one does not: nearest ancestor (the value whose iteration appended it) still present, plain value.
+     c_prev_lore for every fold of [c_events] (keyed by its position): the values the fold had iterated in the
+               previous data of this run.
 
    [check_case]: the model functions of Stream.v (stream_add_value, stream_iter, met_fold_start,
    met_iteration_end, stream_compactify), driven the way stream_execute_helpers.rs drives them, reproduce
@@ -44,7 +44,7 @@ Record case_t := {
   c_out : outcome;
   c_final : bool;
   c_visits : list (N * list string);
-  c_vanished : list (N * string) }.
+  c_prev_lore : list (N * list N) }.
 
 (* ---------------- helpers ---------------- *)
 Fixpoint assocN {A} (k : N) (l : list (N * A)) : option A :=
@@ -258,35 +258,43 @@ Definition c13_oracle (c : case_t) : bool :=
    The cursor counts ALL generations of a matrix, slice_iter skips that many NON-EMPTY ones.  As soon as
    the previous matrix has an empty generation below the cursor, a value that a fold iteration appended
    in an earlier run (it is replayed as `Previous g`) is not handed out again: its iteration -- with the
-   executed calls and the appends of that iteration -- disappears from the peer's data.
-   Shape recognised here, on the observation of the owner's last run: every value the fold misses is an
-   append of the fold's own body replayed as `Previous g`, and the previous generations of the values
-   that entered the stream before it in this run are not gap-free (there is a hole).  The host's log may
-   then lack the visits of the missed values and may contain visits of values that vanished together
-   with a lost iteration ([c_vanished]: plain value + nearest ancestor still in the stream), nothing else. *)
-Fixpoint prev_gens_before (evs : list event) (pos : N) : list N :=
+   executed calls and the appends of that iteration -- disappears from the peer's data (and may come back
+   in a later run, when the shape of the matrix has changed: the value is then visited a second time).
+   Shape recognised here: a value the fold loses -- it had an iteration in the previous data and has
+   none now, or, at the owner's last run, it has none at all -- is an append of the fold's own body
+   replayed from the data, and the generations of its matrix that entered the stream before it in this
+   run are not gap-free (there is a hole). *)
+(* generations of one source (previous: [cur = false], current: [cur = true]) *)
+Definition gen_of_source (cur : bool) (g : generation) : list N :=
+  match g, cur with GPrevious h, false => [h] | GCurrent h, true => [h] | _, _ => [] end.
+Fixpoint gens_before (cur : bool) (evs : list event) (pos : N) : list N :=
   match evs with
   | [] => []
-  | EAdd _ (GPrevious g) :: t => g :: prev_gens_before t pos
+  | EAdd _ g :: t => gen_of_source cur g ++ gens_before cur t pos
   | EFold p _ body _ :: t =>
       if p =? pos then [] else
-      concat (map (fun x => concat (map (fun a => match snd a with GPrevious g => [g] | _ => [] end) (fst (snd x)))) body)
-      ++ prev_gens_before t pos
-  | _ :: t => prev_gens_before t pos
+      concat (map (fun x => concat (map (fun a => gen_of_source cur (snd a)) (fst (snd x)))) body) ++ gens_before cur t pos
+  | _ :: t => gens_before cur t pos
   end.
 Definition body_adds (body : body_t) : list (N * generation) := concat (map (fun x => fst (snd x)) body).
 Fixpoint adds_before (m : N) (l : list (N * generation)) : list (N * generation) :=
   match l with [] => [] | x :: t => if fst x =? m then [] else x :: adds_before m t end.
 Definition gap_free (l : list N) : bool := forallb (fun h => (h =? 0) || existsb (N.eqb (h - 1)) l) l.
+(* [m] was appended by the fold's own body and is replayed from the data (`Previous g`, or `Current g` when
+   another peer's fold made it); the generations of the same matrix that entered the stream before it in
+   this run leave a hole.  Values the fold loses do not count: they went into the hole after the cursor
+   had passed it. *)
 Definition hole_shape (c : case_t) (pos : N) (body : body_t) (missing : list N) (m : N) : bool :=
+  let shape cur :=
+    negb (gap_free (gens_before cur (c_events c) pos ++
+                    concat (map (fun x => if memN (fst x) missing then [] else gen_of_source cur (snd x))
+                                (adds_before m (body_adds body))))) in
   match assocN m (body_adds body) with
-  | Some (GPrevious _) =>
-      (* values the fold misses do not count: they went into the hole after the cursor had passed it *)
-      negb (gap_free (prev_gens_before (c_events c) pos ++
-                      concat (map (fun x => match snd x with GPrevious h => if memN (fst x) missing then [] else [h] | _ => [] end)
-                                  (adds_before m (body_adds body)))))
+  | Some (GPrevious _) => shape false
+  | Some (GCurrent _) => shape true
   | _ => false
   end.
+
 (* ---- second documented deviation (known_findings key stream-second-fold-skips-new) ----
    A fold leaves an empty trailing generation in the `new` matrix (met_iteration_end adds it after the
    last round).  A later fold over the same stream in the same run counts it in its cursor, so the values
@@ -306,25 +314,44 @@ Definition second_fold_shape (c : case_t) (pos : N) (body : body_t) (m : N) : bo
   | _ => false
   end.
 
-(* [strict]: only the first deviation *)
-Definition c13_known_with (strict : bool) (c : case_t) : bool :=
+Definition prev_lore_of (c : case_t) (pos : N) : list N := match assocN pos (c_prev_lore c) with Some l => l | None => [] end.
+(* iterated according to the previous data, still in the stream, not iterated by this run *)
+Definition lost_now (c : case_t) (pos : N) (body : body_t) (lore : list N) : list N :=
+  filter (fun v => negb (memN v lore) && memN v (fold_domain c pos body)) (prev_lore_of c pos).
+Definition lost_values (c : case_t) (pos : N) (body : body_t) (lore : list N) : list N :=
+  lost_now c pos body lore ++ (if c_final c then fold_missing c pos body lore else []).
+
+(* this run shows the first deviation: it loses at least one value and every lost value has the hole shape *)
+Definition c13_hole_evidence (c : case_t) : bool :=
+  existsb (fun e => match e with
+    | EFold pos true body lore =>
+        let lost := lost_values c pos body lore in
+        negb (is_nil lost) && forallb (hole_shape c pos body lost) lost
+    | _ => false end) (c_events c).
+Definition c13_no_hole_evidence (c : case_t) : bool := negb (c13_hole_evidence c).
+
+(* a failure of c13_oracle has a recognised shape: the canon observations and at-most-once hold; every value
+   the last run's fold misses has the hole shape ([strict]) or the second-fold shape; every value the fold
+   iterated was visited.  (What the host's log holds beyond that is not constrained here: the plugin accepts
+   it only in a history with hole evidence -- a lost iteration can come back and be visited twice.) *)
+Definition c13_shape_ok (strict : bool) (c : case_t) : bool :=
   match c_out c with
   | OErr _ => false
   | OData _ =>
       c13_canon c && c13_fold_once c &&
       forallb (fun e => match e with
         | EFold pos true body lore =>
-            let missing := fold_missing c pos body lore in
-            forallb (fun m => hole_shape c pos body missing m || (negb strict && second_fold_shape c pos body m)) missing &&
+            let missing := if c_final c then fold_missing c pos body lore else [] in
+            forallb (fun m => hole_shape c pos body (lost_values c pos body lore) m ||
+                              (negb strict && second_fold_shape c pos body m)) missing &&
             match assocN pos (c_visits c) with
-            | Some log =>
-                multiset_le (map (value_of c) lore) log &&
-                multiset_le log (map (value_of c) (fold_domain c pos body) ++
-                                 map snd (filter (fun x => memN (fst x) missing) (c_vanished c)))
+            | Some log => negb (c_final c) || multiset_le (map (value_of c) lore) log
             | None => true
             end
         | _ => true end) (c_events c)
   end.
-(* false exactly on the failures of C13 that are NOT the first / not one of the two documented deviations *)
-Definition c13_not_hole (c : case_t) : bool := c13_oracle c || c13_known_with true c.
-Definition c13_unexplained (c : case_t) : bool := c13_oracle c || c13_known_with false c.
+(* false exactly on the failures of C13 whose shape is not the first / not one of the two documented deviations *)
+Definition c13_not_hole (c : case_t) : bool := c13_oracle c || c13_shape_ok true c.
+Definition c13_unexplained (c : case_t) : bool := c13_oracle c || c13_shape_ok false c.
+(* the failure is in the fold's coverage (as opposed to the host's log only) *)
+Definition c13_cover_ok (c : case_t) : bool := match c_out c with OErr _ => true | OData _ => c13_fold_cover c end.
